@@ -199,10 +199,10 @@ func c20Real(body []byte, sym []int) []byte {
 }
 
 type c20SizeStats struct {
-	mu                                            sync.Mutex
-	executed, delivered, refused, cutDelivered    int
-	keptBoundary                                  int
-	viols                                         []*c20SizeViol
+	mu                                         sync.Mutex
+	executed, delivered, refused, cutDelivered int
+	keptBoundary                               int
+	viols                                      []*c20SizeViol
 }
 
 func (st *c20SizeStats) add(v *c20SizeViol) {
@@ -378,11 +378,11 @@ type c20HistViol struct {
 }
 
 type c20HistStats struct {
-	mu                                           sync.Mutex
-	executed, steps, spam, accepted, drift, det  int
-	viols                                        map[string][]*c20HistViol
-	counts                                       map[string]int
-	driftSample                                  []string
+	mu                                          sync.Mutex
+	executed, steps, spam, accepted, drift, det int
+	viols                                       map[string][]*c20HistViol
+	counts                                      map[string]int
+	driftSample                                 []string
 }
 
 func (st *c20HistStats) add(v *c20HistViol) {
